@@ -58,6 +58,13 @@ Theorem reachable_well_formed : forall hist, net_ok (run [] hist).
 Proof. exact (fun hist => run_ok hist [] net_ok_nil). Qed.
 Print Assumptions reachable_well_formed.
 
+(* in every reachable state no router has a usable cost through somebody who is not in its neighbour table (hops_okb,
+   executable: evaluated on every dump of the implementation) — whatever was delivered, lost, restarted or swept; an
+   update applies the advertisement current when it holds the router lock (Deliver / LateUpdate take it at that time) *)
+Theorem no_route_via_non_neighbour : forall hist i ro, getr (run [] hist) i = Some ro -> hops_okb ro = true.
+Proof. exact reachable_hops_okb. Qed.
+Print Assumptions no_route_via_non_neighbour.
+
 (* a ribUpdate that runs late, on the state object of a neighbour that checkDeadNeighbors has already removed (and
    whose stored advertisement NeighborState.delete cleared), changes nothing and flags nothing — so the lost
    neighbour's destinations are not re-installed; such events may occur anywhere in the histories and rounds below *)
